@@ -175,6 +175,7 @@ func c03Cfgs(full bool) []ref.BalCfg {
 }
 
 func c03Run(e *core.Env) {
+	e.ReserveTail()
 	drv := e.Driver()
 	d3 := []string{"2020-01-30", "2020-02-29", "2020-03-31"}
 	type plan struct {
@@ -229,6 +230,7 @@ func c03Run(e *core.Env) {
 		})
 		e.SetBound("journal_depth_"+pl.tag, pl.n)
 	}
+	e.BeginTail()
 	// position life histories (closed and reopened positions, several positions)
 	chainN := core.Pick(e, 4, 6)
 	var chainCfgs []ref.BalCfg
@@ -293,7 +295,7 @@ func init() {
 	core.Register(&core.Check{
 		ID: "C03", Level: "model_checking", Run: c03Run, Replay: c03Replay,
 		Added:       "position life histories; -v combined with --remap; three-file layout under every loader schedule",
-		QuickBudget: 100 * time.Second, ThoroughBudget: 14 * time.Minute,
+		QuickBudget: 180 * time.Second, ThoroughBudget: 14 * time.Minute,
 		Rule: "every sequence of <= N directives over {7 position/flow transactions in USD/AAPL/EUR/CHF, 6 price declarations (two values, inverse, chained, 8 decimals)} x 3 dates (journals with two prices for one pair on one day excluded), x valuation {CHF,USD} x --to x intervals x --close; " +
 			"every A/L cell is compared with quantity x latest price, income mirror accounts with the accumulated gain, other E/I/E cells with booking-day values, within one 1e-8 truncation per arithmetic step; missing price => clean failure; non-trivial = at least one cell compared",
 		Assumptions: []string{"windows do not cut off earlier bookings (--from is not used): with a later --from the report covers only in-window bookings and 'position' is not defined by the statement",
